@@ -139,6 +139,7 @@ def run(tier: str, only=None) -> int:
         "non-daemon user threads and uninterruptible C calls are outside the property's quantifier",
     ]
     cap = 400000 if tier == "quick" else 6000000
+    stmt = harness.stmt_mask(lambda m, q, l: m == "gateway_base" and (q.startswith("WorkerPool.") or q.startswith("WorkerGateway.") or q.startswith("BaseGateway._thread_receiver") or q.startswith("Reply.")))
     rungs = set()
     acts = list(ACTIVITIES)
     for backend in ("thread", "main_thread_only", "gevent"):
@@ -173,6 +174,18 @@ def run(tier: str, only=None) -> int:
             Pe = {"activity": act, "backend": backend, "N": N, "ks": sub, "explore": True}
             st = harness.run_exploration(rep, PID, name + "/die-sched", OrphanScn, Pe, {"cut": 1, "ps": 1, "free": 1} if tier == "quick" else {"cut": 1, "ps": 2, "free": 1}, max_execs=cap, params_desc={"death_offsets": len(sub)})
             rungs |= {o[0] for o in st.outcomes}
+            # two preemptions around the loss of the connection while the initiator is idle (the worker's
+            # receiver thread against its main thread finishing a body at that very moment)
+            if act in ("recv", "sink", "swallow-recv", "two", "daemon", "idle") and backend != "gevent":
+                P2 = {"activity": act, "backend": backend, "N": N, "ks": [N], "explore": True}
+                st = harness.run_exploration(rep, PID, name + "/die-idle-ps2", OrphanScn, P2, {"cut": 1, "ps": 2, "free": 1} if tier == "quick" else {"cut": 1, "ps": 3, "free": 2}, max_execs=cap)
+                rungs |= {o[0] for o in st.outcomes}
+            # statement-level preemption inside the worker's pool / gateway code while the
+            # connection is lost: the body ends at the same moment the receiver thread shuts the pool down
+            if act in ("recv", "sink", "swallow-recv", "idle", "send") and backend != "gevent":
+                Ps = {"activity": act, "backend": backend, "N": N, "ks": [N], "explore": True}
+                st = harness.run_exploration(rep, PID, name + "/die-idle-stmt", OrphanScn, Ps, {"cut": 1, "ps": 0, "pl": 1 if tier == "quick" else 2, "free": 1}, stmt=stmt, max_execs=cap)
+                rungs |= {o[0] for o in st.outcomes}
     rep.cov["rungs_reached"] = sorted(r for r in rungs if r)
     if not only and not {"shutdown", "sigint", "os._exit"} <= rungs:
         rep.internal.append(f"vacuity guard: escalation rungs reached {rungs}, expected all three")
@@ -180,4 +193,4 @@ def run(tier: str, only=None) -> int:
 
 
 def replay(path: str) -> int:
-    return harness.replay_file(path, SCENARIOS)
+    return harness.replay_file(path, SCENARIOS, stmt_for=lambda d: harness.stmt_mask(lambda m, q, l: m == "gateway_base" and (q.startswith("WorkerPool.") or q.startswith("WorkerGateway.") or q.startswith("BaseGateway._thread_receiver") or q.startswith("Reply."))))
